@@ -86,7 +86,7 @@ def index_faults(idx, other_idx):
 
 class Env(object):
     def __init__(self):
-        self.tmp = tempfile.mkdtemp(prefix='verif_c20_', dir='/dev/shm' if os.path.isdir('/dev/shm') else None)
+        self.tmp = H.scratch('verif_c20_')
         self.path = os.path.join(self.tmp, 'f.tdms')
         self.handles = []
 
